@@ -1,6 +1,7 @@
 package main
 
 import (
+	"strconv"
 	"bytes"
 	"go/printer"
 	"fmt"
@@ -84,6 +85,7 @@ func genLimits() {
 	}
 	// every read of f goes through one io.LimitReader(f, MaxReadSize) whose result is the only argument of io.ReadAll
 	limited := ""
+	readExtra := 0
 	reads := 0
 	okReads := 0
 	ast.Inspect(fd.Body, func(n ast.Node) bool {
@@ -92,7 +94,20 @@ func genLimits() {
 			if len(x.Rhs) == 1 && len(x.Lhs) == 1 {
 				if c, ok := x.Rhs[0].(*ast.CallExpr); ok && selName(c.Fun) == "io.LimitReader" && len(c.Args) == 2 {
 					if a, ok := c.Args[0].(*ast.Ident); ok && a.Name == "f" {
+						// io.LimitReader(f, MaxReadSize) or io.LimitReader(f, MaxReadSize+k) for a literal k
+						capOK := false
 						if b, ok := c.Args[1].(*ast.Ident); ok && b.Name == "MaxReadSize" {
+							capOK, readExtra = true, 0
+						} else if be, ok := c.Args[1].(*ast.BinaryExpr); ok && be.Op.String() == "+" {
+							if b, ok := be.X.(*ast.Ident); ok && b.Name == "MaxReadSize" {
+								if lit, ok := be.Y.(*ast.BasicLit); ok {
+									if k, err := strconv.Atoi(lit.Value); err == nil && k >= 0 && k <= 16 {
+										capOK, readExtra = true, k
+									}
+								}
+							}
+						}
+						if capOK {
 							if id, ok := x.Lhs[0].(*ast.Ident); ok {
 								limited = id.Name
 							}
@@ -114,6 +129,22 @@ func genLimits() {
 		return true
 	})
 	through := reads == 1 && okReads == 1
+	// what is kept of the bytes read: with an allowance of MaxReadSize+k (k > 0) the data must be cut back to MaxReadSize
+	// by a statement `data = data[:MaxReadSize]`
+	cutsBack := false
+	ast.Inspect(fd.Body, func(n ast.Node) bool {
+		if a, ok := n.(*ast.AssignStmt); ok && len(a.Lhs) == 1 && len(a.Rhs) == 1 {
+			if sl, ok := a.Rhs[0].(*ast.SliceExpr); ok && sl.Low == nil {
+				if h, ok := sl.High.(*ast.Ident); ok && h.Name == "MaxReadSize" {
+					cutsBack = true
+				}
+			}
+		}
+		return true
+	})
+	if readExtra > 0 && !cutsBack {
+		through = false
+	}
 
 	k := parse("internal/ssh1/key.go")
 	bounded := func(fn string) bool {
@@ -178,12 +209,14 @@ func genLimits() {
 	var sb strings.Builder
 	sb.WriteString(fmt.Sprintf("def maxReadSize : Nat := %d\n", max))
 	sb.WriteString(fmt.Sprintf("def inspectReadsThroughLimit : Bool := %v\n", through))
+	sb.WriteString(fmt.Sprintf("def inspectReadExtra : Nat := %d\n", readExtra))
 	sb.WriteString(fmt.Sprintf("def ssh1BoundsMPInt : Bool := %v\n", bounded("readMPInt")))
 	sb.WriteString(fmt.Sprintf("def ssh1BoundsString : Bool := %v\n", bounded("readString")))
 	sb.WriteString(fmt.Sprintf("def ssh1ChecksBlocks : Bool := %v\n", blocks))
 	writeGen("Limits", sb.String())
 	facts["limits.maxReadSize"] = max
 	facts["limits.inspectReadsThroughLimit"] = through
+	facts["limits.inspectReadExtra"] = readExtra
 	facts["ssh1.boundsMPInt"] = bounded("readMPInt")
 	facts["ssh1.boundsString"] = bounded("readString")
 	facts["ssh1.checksBlocks"] = blocks
